@@ -5,7 +5,7 @@
 set -u
 WT=$1; PATCH=$2; shift 2
 MC=${MC:-/var/tmp/mutcheck}
-mkdir -p $MC
+mkdir -p $MC $MC/target
 rsync -a --delete --exclude .cache --exclude work --exclude .git --exclude replays --exclude evidence /verif/ $MC/verif/
 mkdir -p $MC/verif/.cache $MC/verif/replays $MC/verif/evidence
 sed -i "s#/repo/#$WT/#g" $MC/verif/harness/Cargo.toml
